@@ -101,7 +101,16 @@ Iter(e, en, st) ==
          LET x == Iter(e.fn.obj, en, st)
              lam == Kw(e, "trans_fn")
              iv == Kw(e, "interval")
-             f(c) == Eval(lam.body, Bind(en, lam.params[1], CoordVal(c)), st)
+             fx(c) == Eval(lam.body, Bind(en, lam.params[1], CoordVal(c)), st)
+             \* IEEE-754 facts of this lambda (computed by CPython's float arithmetic, attached to the lambda by the converter): the
+             \* points at which the exact value is an integer and the double-precision value is not; there the projected coordinate is
+             \* moved off the integer by 1/SCALE in the recorded direction (what matters downstream is only that it is no integer and
+             \* on which side of integer interval bounds it lies)
+             IsInt(v, k) == v.k = "num" /\ v.n = k * v.d
+             Hit(c) == IF "ieee" \notin DOMAIN lam \/ Len(c) # 1 THEN {}
+                       ELSE {k \in 1..Len(lam.ieee) : /\ lam.ieee[k].arg * SCALE = c[1]
+                                                      /\ \A j \in 1..Len(lam.fv) : lam.fv[j] \in DOMAIN en /\ IsInt(en[lam.fv[j]], lam.ieee[k].fv[j])}
+             f(c) == IF Hit(c) = {} THEN fx(c) ELSE NAdd(fx(c), Num(lam.ieee[CHOOSE k \in Hit(c) : TRUE].delta, SCALE))
              ys == [i \in 1..Len(x.el) |-> [c |-> f(x.el[i].c), p |-> x.el[i].p]]
              t == IF iv.e = "absent" THEN None ELSE Eval(iv, en, st)
              keep == {i \in 1..Len(ys) : iv.e = "absent" \/ (NLe(t.v[1], ys[i].c) /\ NLt(ys[i].c, t.v[2]))}
